@@ -44,6 +44,12 @@ RULE_BREAKERS = [
     ("operator in typedef", "typedef operator int() x;"), ("array of references", "int& x[3];"), ("pointer to reference", "int&* x;"),
     ("inline nested namespace", "inline namespace a::b { }"),
 ]
+# unprocessed directives that merely MENTION the words the directive rule looks for (in a condition, a macro name, a comment)
+for _d in ('#if __has_warning("-Wdeprecated")\nint x;\n#endif', "#ifdef ENABLE_WARNINGS\nint x;\n#endif", "#undef warning_level", "#ifndef pragma_once\nint x;\n#endif",
+           "#if defined(include_guard)\nint x;\n#endif", "#if 1\nint x;\n#else // warning\nint y;\n#endif", "#error no warning here", "#if line > 3\nint x;\n#endif",
+           "#define warning(x) x", "# define LINE 3", "#elif warning", "#endif // #warning", "#if 0 // # 1 \"f.h\"\nint x;\n#endif", "#ifdef line\n#endif",
+           "#undef pragma", "#if include\n#endif", "# if 1\n# endif", "#\tifdef X\n#\tendif", "#if 1 /* #warning */\n#endif", "#  undef  warning"):
+    RULE_BREAKERS.append(("pp directive mentioning a tolerated word", _d))
 for _o1, _c1 in (("(", ")"), ("[", "]"), ("{", "}")):
     for _o2, _c2 in (("(", ")"), ("[", "]"), ("{", "}")):
         if _o1 != _o2:
